@@ -76,3 +76,8 @@ Definition go_sbyte (s : string) (i : Z) : Z := go_sbyte_nat s (Z.to_nat i).
    the texts are not kept *)
 Inductive go_issue := GoError | GoWarning | GoTimeCheck.
 Definition go_err_isnil (e : option string) : bool := match e with None => true | Some _ => false end.
+
+(* s[lo:hi] of a string *)
+Definition go_substr (s : string) (lo hi : Z) : string := substring (Z.to_nat lo) (Z.to_nat hi - Z.to_nat lo) s.
+(* l == nil for a slice (a nil slice and an empty one are the same list) *)
+Definition go_lnil {A} (l : list A) : bool := match l with [] => true | _ => false end.
